@@ -1,0 +1,13 @@
+//go:build verif
+
+// Contracts for the deductive checker in /verif (comment-only; compiled only with -tags verif).
+// Ghost store model (tblSet, blkSet, ... , R3, tableUsable): /verif/spec/store.spec.
+package apiutils
+
+//@ func (*ObjectReceiver).saveTable
+//@   props C07 C13 C17
+//@   requires r.db != nil && R3(r.db)
+//@   modifies tblSet, blkIdxSet, tblIdxSet, profSet
+//@   ensures [C07] err == nil ==> tableUsable(r.db, sid(sum))
+//@   ensures [C17] err != nil ==> tblSet == old(tblSet)
+//@   crash-invariant [C13] R3(r.db)
